@@ -369,9 +369,11 @@ func Reach(q Query) (found bool, trace []*ssa.BasicBlock, hit ssa.Instruction) {
 			if q.Target != nil && q.Target(in) {
 				// build trace
 				var tr []*ssa.BasicBlock
-				for b := s.b; b != nil; b = parent[b] {
+				inTrace := map[*ssa.BasicBlock]bool{}
+				for b := s.b; b != nil && !inTrace[b]; b = parent[b] {
+					inTrace[b] = true
 					tr = append([]*ssa.BasicBlock{b}, tr...)
-					if startBlocks[b] && parent[b] == nil {
+					if startBlocks[b] && (parent[b] == nil || b != s.b) {
 						break
 					}
 				}
